@@ -31,6 +31,13 @@ func init() {
 		Note: claimNote, Technique: "static analysis: symbolic value pairing, decision table by " +
 			"conditional constant propagation, write-set check", Ref: "DESIGN.md §4 C11"})
 	addMutants(
+		Mutant{Prop: "C11", Name: "unchanged-range-shortcut", File: "router/dataplane.go",
+			Old: `	d.dispatchedPortStart = start
+	d.dispatchedPortEnd = end`, New: `	if start == d.dispatchedPortStart && end == d.dispatchedPortEnd {
+		return
+	}
+	d.dispatchedPortStart = start
+	d.dispatchedPortEnd = end`, Expect: "F1-range-reaches-resolve"},
 		Mutant{Prop: "C11", Name: "resolve-and-instead-of-or", File: "router/underlayproviders/udpip/udpip.go",
 			Old: `	if port < l.dispatchStart || port > l.dispatchEnd {`,
 			New: `	if port < l.dispatchStart && port > l.dispatchEnd {`, Expect: "T1-resolve-table"},
@@ -99,6 +106,28 @@ func runC11(c *Ctx) {
 			}
 		}
 		c.Check(ok, rule, v.Name()+":all-providers", v.Fn.Pos(), "SetDispatchPorts is invoked on every element of d.underlays")
+		// ... on EVERY call of SetPortRange: no return is reachable around the loop over
+		// the providers (an "unchanged range" shortcut would leave the redirect port at
+		// its zero value for the empty range, which equals the initial stored range)
+		var loop *ssa.BasicBlock
+		for _, b := range v.Fn.Blocks {
+			for _, in := range b.Instrs {
+				if nx, isNext := in.(*ssa.Next); isNext && wild("range(recv.underlays)", v.S.Sym(nx.Iter)) {
+					loop = b
+				}
+			}
+		}
+		okAll := loop != nil
+		for _, b := range v.Fn.Blocks {
+			if _, isRet := b.Instrs[len(b.Instrs)-1].(*ssa.Return); isRet && b != v.Fn.Recover && loop != nil && !loop.Dominates(b) {
+				okAll = false
+				c.Fail(rule, v.Name()+":providers-always-told", b.Instrs[len(b.Instrs)-1].Pos(),
+					"SetPortRange can return without having told the underlay providers the range and the redirect port")
+			}
+		}
+		if okAll {
+			c.OK(rule, v.Name()+":providers-always-told", v.Fn.Pos(), "every return of SetPortRange lies behind the loop over the providers")
+		}
 	}
 	prov := "(*router/underlayproviders/udpip.provider)"
 	if v := c.View(prov + ".SetDispatchPorts"); v != nil {
